@@ -5,7 +5,7 @@ import Bng.Drv.PppSess
 import Bng.Drv.CircuitKey
 import Bng.Drv.Index
 /-
-  bngdrv-c20 <component> < trace     (development convenience: the C20 components alone)
+  bngdrv-c20 <component> < trace     (the driver of property C20: its five components alone, used by checks/c20.py)
 -/
 open Bng.Drv
 
